@@ -1177,7 +1177,7 @@ pub fn property() -> Property {
     Property {
         id: "C16",
         level: "exploration",
-        rule: "enumerated: every sequence of <=3 insert/remove_range operations over all 45 ranges of an 8-clock universe (IdSet) and over all 21 ranges x {a},{b},{a,b} of a 5-clock universe (IdMap), every ordered pair of the 256 canonical IdSets for merge/diff/intersect/subset_of/==/hash/encode; random: op sequences over 3 clients x 64 clocks.  Non-trivial = an operand overlaps, touches or nests existing content (IdSet) / attributes differ on the overlap or a removal hits content (IdMap); distinct = distinct enumerated index or distinct generated case".into(),
+        rule: "enumerated: every sequence of <=3 insert/remove_range operations over all 45 ranges of an 8-clock universe (IdSet) and over all 21 ranges x {a},{b},{a,b} of a 5-clock universe (IdMap), every ordered pair of the 256 canonical IdSets for merge/diff/intersect/subset_of/==/hash/encode; random: op sequences over 3 clients x 64 clocks; documents: after every 4th step of generated multi-replica histories (GC on and off, deletions of nested types) the delete set reported by snapshot() and the one inside of the full-state update (v1, v2) equal the ids the block store flags as deleted (hook store_blocks).  Non-trivial = an operand overlaps, touches or nests existing content (IdSet) / attributes differ on the overlap or a removal hits content (IdMap); distinct = distinct enumerated index or distinct generated case".into(),
         assumptions: vec![
             "bit-mask model of (client, clock) points with an attribute bit-set per point".into(),
             "attribute lists passed to one IdMap::insert call contain no duplicates".into(),
@@ -1188,6 +1188,105 @@ pub fn property() -> Property {
             Box::new(ExhaustivePart { name: "enum-idset", f: exhaustive_idset }),
             Box::new(ExhaustivePart { name: "enum-idmap", f: exhaustive_idmap }),
             Box::new(Part(RandomPart)),
+            Box::new(Part(DocDeleteSets)),
         ],
+    }
+}
+
+// ------------------------------------------------------------------------------------------------
+// delete sets of documents
+// ------------------------------------------------------------------------------------------------
+
+/// The delete set a document reports (`snapshot().delete_set`, and the one inside its full-state
+/// update, v1 and v2) is exactly the set of ids its block store flags as deleted (hook
+/// `store_blocks`; garbage-collected ranges are deleted ids too).
+pub struct DocDeleteSets;
+
+#[derive(Clone, Debug, Serialize, Deserialize)]
+pub struct DocCase {
+    pub history: crate::world::History,
+}
+
+impl Prop for DocDeleteSets {
+    type Case = DocCase;
+    fn name(&self) -> &'static str {
+        "doc-delete-sets"
+    }
+    fn cases(&self, tier: Tier) -> u64 {
+        tier.pick(40_000, 1_500_000)
+    }
+    fn strategy(&self, tier: Tier) -> BoxedStrategy<DocCase> {
+        use crate::ops::Profile;
+        use crate::world::{history_strategy, HistoryShape};
+        let mut p = Profile::all();
+        p.remove_weight = 6;
+        history_strategy(p, HistoryShape::default_for(tier), true).prop_map(|history| DocCase { history }).boxed()
+    }
+    fn check(&self, case: &DocCase, st: &mut CaseStats) -> Result<(), Fail> {
+        use yrs::verif_hooks::{store_blocks, BlockKind};
+        use yrs::{ReadTxn, StateVector, Transact, Update};
+        let mut w = crate::world::World::new(&case.history.cfgs);
+        for (i, s) in case.history.steps.iter().enumerate() {
+            if let Err(e) = w.step(s) {
+                fail!("c16/doc/transport", "history step {} {:?}: {}", i, s, e);
+            }
+            if i % 4 != 3 && i + 1 != case.history.steps.len() {
+                continue;
+            }
+            for (ri, r) in w.reps.iter().enumerate() {
+                let txn = r.doc.transact();
+                // ground truth: ids of blocks flagged deleted (tombstones and GC ranges)
+                let mut truth = IdSet::new();
+                let mut deleted_ids = 0u64;
+                let mut gc_blocks = 0u64;
+                for b in store_blocks(txn.store()) {
+                    if b.deleted && !matches!(b.kind, BlockKind::Skip) {
+                        truth.insert(ID::new(b.client, b.clock), b.len);
+                        deleted_ids += b.len as u64;
+                        if matches!(b.kind, BlockKind::GC) {
+                            gc_blocks += 1;
+                        }
+                    }
+                }
+                let snap = txn.snapshot();
+                ensure!(
+                    snap.delete_set == truth,
+                    "c16/doc/snapshot-delete-set",
+                    "after step {} on replica {}: snapshot().delete_set = {:?}, ids flagged deleted in the block store = {:?}",
+                    i,
+                    ri,
+                    snap.delete_set,
+                    truth
+                );
+                // a stash would travel inside of the full state with its own delete set
+                if !txn.has_missing_updates() {
+                    for v2 in [false, true] {
+                        let bytes = if v2 { txn.encode_state_as_update_v2(&StateVector::default()) } else { txn.encode_state_as_update_v1(&StateVector::default()) };
+                        let u = match if v2 { Update::decode_v2(&bytes) } else { Update::decode_v1(&bytes) } {
+                            Ok(u) => u,
+                            Err(e) => fail!("c16/doc/state-undecodable", "after step {} on replica {}: full state (v2={}) does not decode: {}", i, ri, v2, e),
+                        };
+                        ensure!(
+                            *u.delete_set() == truth,
+                            "c16/doc/state-delete-set",
+                            "after step {} on replica {}: delete set inside of the full-state update (v2={}) = {:?}, ids flagged deleted = {:?}",
+                            i,
+                            ri,
+                            v2,
+                            u.delete_set(),
+                            truth
+                        );
+                    }
+                }
+                if deleted_ids > 0 {
+                    st.hit("replica_states_with_deletions");
+                }
+                if gc_blocks > 0 {
+                    st.hit("replica_states_with_gc_ranges");
+                    st.nt();
+                }
+            }
+        }
+        Ok(())
     }
 }
